@@ -366,4 +366,11 @@ def prove(run, prop, targets=None, gen_only=None):
             run.oblige('audit:%s' % prop, False, alog)
     bad = lint_coq()
     run.oblige('lint:no-admitted-no-axiom', not bad, '\n'.join(bad))
+    if ok and getattr(run, 'tier', 'quick') == 'thorough':
+        # independent re-check of the compiled property file and everything it depends on, with the axiom summary
+        rc, out = sh('coqchk -o -silent -Q . WV WV.props.%s' % prop, timeout=2400, cwd=COQ)
+        summary = out[out.find('CONTEXT SUMMARY'):] if 'CONTEXT SUMMARY' in out else out[-1500:]
+        clean = (rc == 0 and '* Axioms: <none>' in summary and 'type-in-type: <none>' in summary
+                 and 'unsafe (co)fixpoints: <none>' in summary and 'positivity is assumed: <none>' in summary)
+        run.oblige('coqchk:props/%s' % prop, clean, summary[-1500:])
     return ok
